@@ -853,6 +853,16 @@ def run(chk: core.Check, pid: str, classify):
         else:
             tlc.require_clean(r, "LegacyMC/" + name)
         raws += r.json_raw
+    # the guards of the design invariants are not vacuous: without them TLC must find the recorded deviation again
+    ung = "UnguardedC18" if pid == "C18" else "UnguardedC19"
+    r = mc_design(chk, pid, "unguarded", 4 if pid == "C18" else 3, 4 if pid == "C18" else 3, ["LLeaf", "LUnary", "LMany"], 2,
+                  emit=False, invariants=[ung])
+    chk.note_tlc("LegacyMC/" + ung, r, "mc (expected to be violated)")
+    chk.tlc_runs[-1]["ok"] = bool(r.violated)
+    chk.notes["unguarded_invariant_violated_as_expected"] = bool(r.violated)
+    if not r.violated:
+        raise tlc.MachineryError(f"{ung} holds on LegacyMC: the model no longer shows the recorded deviation, the guarded "
+                                 "invariants may be vacuous\n" + r.stdout[-1500:])
     chk.exhaustive = True
     # (b) a blind enumeration of all programs (LegacyScripts.tla tracks only the class of every handle): what is executed
     #     does not depend on the machine's idea of the state
